@@ -141,9 +141,10 @@ def oracle_and_corr(ctx):
             failures.append({'signature': 'journal:cat-text-differs', 'case': desc, 'detail': f'{len(out)} bytes vs {len(exp_cat)} expected'})
         # --- windows (+ containers)
         nwin = ctx.q(4, 12)
-        for w in range(nwin):
+        # two extra windows whose bound lies BEFORE 1970 (entry times are unsigned microseconds; the bound used to wrap around)
+        for w in range(nwin + 2):
             a = b = None
-            mode = w % 4
+            mode = w % 4 if w < nwin else 4 + (w - nwin)
             pick = lambda: rng.pick(times) + rng.pick([0, 0, 0, -1, 1])
             if mode == 0:
                 b = rng.pick(times)                # inclusive end exactly on an entry
@@ -151,8 +152,12 @@ def oracle_and_corr(ctx):
                 a = rng.pick(times)
             elif mode == 2:
                 a = b = rng.pick(times)
-            else:
+            elif mode == 3:
                 a, b = sorted([pick(), pick()])
+            elif mode == 4:
+                a = -315619200000000 - rng.below(1000)      # 1960: everything is after it
+            else:
+                b = -315619200000000 - rng.below(1000)      # nothing is before it
             path = plain
             ckind = ['plain', 'gz', 'xz', 'bz2', 'lz4'][w % 5] if len(data) < 4_000_000 else 'plain'
             if ckind != 'plain':
